@@ -303,7 +303,15 @@ class World:
                 ev = (self.cfg.scrypt(blk.summary_raw(), blk.height.to_bytes(8, "big")), b"\x00" * 32, R.NULL32)
                 ev = (ev[0], ev[1], R.blake2(ev[0] + ev[1] + R.enc_txlist(blk.txs)))
             if evm is not None:
-                if evm[0] == "sibling":
+                if evm[0] == "forged_summary":
+                    # the summary hash is made up (no scrypt round spent); chain sample and block hash then follow from it the
+                    # regular way, so everything that can be checked WITHOUT the scrypt round agrees
+                    forged = hashlib.sha256(b"forged" + blk.summary_raw()).digest()
+                    if blk.height >= 1 and blk.height - 1 < len(pnode.chain):
+                        ev = R.pow_evidence(blk, raw_at, lambda *_a: forged)
+                    else:
+                        ev = (forged, b"\x00" * 32, R.blake2(forged + b"\x00" * 32 + R.enc_txlist(blk.txs)))
+                elif evm[0] == "sibling":
                     ev = self.blocks[evm[1]].ev
                 else:
                     f = bytearray(ev[evm[0]])
